@@ -1,7 +1,11 @@
 From Coq Require Import ZArith.
 From Signalo Require Import Model.Sources Spec.C10 Base.Report.
 
-Record case := mk { ce : expr; cops : list op; cres : list (option Z); cpanic : bool }.
+(* cleft: items left in every list leaf after the run (Some only for cycle-free expressions): a by-reference
+   user of an adapter observes how much of the underlying source was consumed.
+   Counts beyond 40 in the real expression (up to usize::MAX) are passed to the model capped at 40, which no
+   run of at most 32 operations can distinguish (trusted, stated in DESIGN.md). *)
+Record case := mk { ce : expr; cops : list op; cres : list (option Z); cleft : option (list nat); cpanic : bool }.
 
 Definition oz_eqb (a b : option Z) : bool :=
   match a, b with Some x, Some y => Z.eqb x y | None, None => true | _, _ => false end.
@@ -17,8 +21,10 @@ Fixpoint depth (e : expr) : nat :=
 
 Definition check (c : case) : verdict :=
   let model_ok := negb (cpanic c) &&
-                  match run_ops false (init (ce c)) (cops c) with
-                  | Some r => list_eqb oz_eqb r (cres c) | None => false end in
+                  match run_ops_state false (init (ce c)) (cops c) with
+                  | Some (r, sf) => list_eqb oz_eqb r (cres c) &&
+                                    match cleft c with Some l => list_eqb Nat.eqb (leaf_lens sf) l | None => true end
+                  | None => false end in
   let spec_ok := negb (cpanic c) && list_eqb oz_eqb (spec_results (ce c) (cops c)) (cres c) in
   (* non-trivial: a nested expression whose stream ends within the observed pulls *)
   let nt := (1 <=? depth (ce c)) && (length (sem (ce c) (length (cops c))) <? length (cops c)) in
